@@ -594,6 +594,27 @@ func keysFn(m map[*ssa.Function]bool) []*ssa.Function {
 }
 
 // routingRules implements C01.R6 (shared with C16.R4).
+// statsState names the piece of progress.Stats an address denotes: a field ("failedIterationDurations"), or an
+// element of an array-typed field selected by a constant index ("iterationDurations[1]").
+func statsState(addr ssa.Value) (string, bool) {
+	t := an.Terminal(addr)
+	if ia, ok := t.(*ssa.IndexAddr); ok {
+		k, isK := ia.Index.(*ssa.Const)
+		fa, isFA := an.Terminal(ia.X).(*ssa.FieldAddr)
+		if !isFA {
+			fa, isFA = ia.X.(*ssa.FieldAddr)
+		}
+		if isK && k.Value != nil && isFA && an.IsNamed(fa.X.Type(), progressPkg, "Stats") {
+			return an.FieldOfAddr(fa).Name() + "[" + k.Value.String() + "]", true
+		}
+		return "", false
+	}
+	if fa, ok := t.(*ssa.FieldAddr); ok && an.IsNamed(fa.X.Type(), progressPkg, "Stats") {
+		return an.FieldOfAddr(fa).Name(), true
+	}
+	return "", false
+}
+
 func routingRules(c *core.Ctx, r *core.Report) {
 	want := map[string]string{ // constant name -> substring the written state's field name must contain
 		"SuccessResult": "successful",
@@ -669,8 +690,8 @@ func routingRules(c *core.Ctx, r *core.Report) {
 				if !ok || len(ci.Common().Args) == 0 {
 					continue
 				}
-				if fa, ok := an.Terminal(ci.Common().Args[0]).(*ssa.FieldAddr); ok && an.IsNamed(fa.X.Type(), progressPkg, "Stats") {
-					touched[an.FieldOfAddr(fa).Name()] = in
+				if st, ok := statsState(ci.Common().Args[0]); ok {
+					touched[st] = in
 				}
 			}
 		}
@@ -734,20 +755,29 @@ func routingRules(c *core.Ctx, r *core.Report) {
 		fn := c.MustFn("internal/progress", name)
 		// every DurationStats field drained exactly once on every path
 		st := c.Named("internal/progress", "Stats").Underlying().(*types.Struct)
+		var states []string
 		for i := 0; i < st.NumFields(); i++ {
 			fld := st.Field(i)
-			if !an.IsNamed(fld.Type(), progressPkg, "DurationStats") {
-				continue
+			if an.IsNamed(fld.Type(), progressPkg, "DurationStats") {
+				states = append(states, fld.Name())
 			}
+			if arr, isArr := fld.Type().Underlying().(*types.Array); isArr && an.IsNamed(arr.Elem(), progressPkg, "DurationStats") {
+				for k := int64(0); k < arr.Len(); k++ {
+					states = append(states, sprintf("%s[%d]", fld.Name(), k))
+				}
+			}
+		}
+		for _, state := range states {
+			state := state
 			exits := an.PathCount(fn, an.CallWeight(func(call ssa.CallInstruction, t *ssa.Function) bool {
 				if t == nil || !drain(t) {
 					return false
 				}
-				fa, ok := an.Terminal(call.Common().Args[0]).(*ssa.FieldAddr)
-				return ok && an.SameField(an.FieldOfAddr(fa), fld)
+				got, ok := statsState(call.Common().Args[0])
+				return ok && got == state
 			}, 1))
 			tot, ok := an.Total(exits, false)
-			r.Check(ok && tot.Lo == 1 && tot.Hi == 1, name+"#drain-"+fld.Name(), c.Pos(fn.Pos()), name+" drains "+fld.Name()+" exactly once", name+" drains "+fld.Name()+" "+tot.String()+" times: iterations still in its period accumulator are missing from (or merged twice into) the totals")
+			r.Check(ok && tot.Lo == 1 && tot.Hi == 1, name+"#drain-"+state, c.Pos(fn.Pos()), name+" drains "+state+" exactly once", name+" drains "+state+" "+tot.String()+" times: iterations still in its period accumulator are missing from (or merged twice into) the totals")
 		}
 		for _, ret := range an.Returns(fn) {
 			lit := an.StructLiteralOf(ret.Results[0])
@@ -768,11 +798,11 @@ func routingRules(c *core.Ctx, r *core.Report) {
 						if !ok || !drain(an.Callee(call)) {
 							return "", 0, false
 						}
-						fa, ok := an.Terminal(call.Call.Args[0]).(*ssa.FieldAddr)
-						if !ok || !an.IsNamed(fa.X.Type(), progressPkg, "Stats") {
+						st, ok := statsState(call.Call.Args[0])
+						if !ok {
 							return "", 0, false
 						}
-						return an.FieldOfAddr(fa).Name(), x.Index, true
+						return st, x.Index, true
 					case *ssa.Call:
 						if t := an.Callee(x); t != nil && t.Pkg != nil && t.Pkg.Pkg.Path() == "sync/atomic" && t.Name() == "Load" {
 							if fa, ok := x.Call.Args[0].(*ssa.FieldAddr); ok && an.IsNamed(fa.X.Type(), progressPkg, "Stats") {
